@@ -77,6 +77,8 @@ def cells(tier):
     out.append({'kind': 'smtp', 'lmtp': 1, 'pipe': 1, 'n': 3, 'dup': 1})
     out.append({'kind': 'smtp', 'lmtp': 0, 'pipe': 1, 'n': 1, 'reuse': 1})
     out.append({'kind': 'smtp', 'lmtp': 1, 'pipe': 0, 'n': 2, 'reuse': 1})
+    for pipe in (0, 1):
+        out.append({'kind': 'auth', 'pipe': pipe})
     for cls in ('pipe', 'pipe1', 'maildrop', 'dovecot'):
         out.append({'kind': 'pipe', 'cls': cls})
     out.append({'kind': 'http'})
@@ -197,6 +199,118 @@ def run_smtp(cell):
             api.prove(kind2 != 'other-exception',
                       'non-relay-exception', second=True,
                       exc=type(val2).__name__, **info)
+
+
+AUTH_EXT = ['AUTH PLAIN LOGIN', 'AUTH LOGIN', 'AUTH CRAM-MD5 PLAIN',
+            'AUTH GSSAPI', 'AUTH', 'AUTH=PLAIN LOGIN', 'AUTH XOAUTH2 PLAIN',
+            'AUTH plain']
+AUTH_REPLIES = ['ok', 'code', 'challenge-then-ok', 'bad-b64-challenge',
+                'empty-challenge', 'close', 'stall', 'garbage',
+                'endless-challenges']
+
+
+def run_auth(cell):
+    """relay with credentials: every shape of the server's AUTH offer and
+    every behaviour at the AUTH stage"""
+    import gevent
+    from slimta.relay import PermanentRelayError, TransientRelayError
+    from slimta.smtp.reply import Reply
+    from slimta.relay.smtp.static import StaticSmtpRelay
+    qc.fresh_hub()
+    qc.patch_env()
+    nc.reset()
+    pipe = cell['pipe']
+    ext_auth = AUTH_EXT[api.choice('auth_ext', len(AUTH_EXT))]
+    beh = AUTH_REPLIES[api.choice('auth_reply', len(AUTH_REPLIES))]
+    fcode = None
+    n334 = [0]
+
+    def auth_action(i):
+        if beh == 'ok':
+            return ('reply', '235', ['2.7.0 ok'])
+        if beh == 'code':
+            return ('reply', fcode, ['no'])
+        if beh == 'challenge-then-ok':
+            if i == 0:
+                return ('reply', '334', ['VXNlcm5hbWU6'])
+            if i == 1:
+                return ('reply', '334', ['UGFzc3dvcmQ6'])
+            return ('reply', '235', ['2.7.0 ok'])
+        if beh == 'bad-b64-challenge':
+            return ('reply', '334', ['a']) if i == 0 else \
+                ('reply', '235', ['ok'])
+        if beh == 'empty-challenge':
+            return ('reply', '334', ['']) if i == 0 else \
+                ('reply', '235', ['ok'])
+        if beh == 'close':
+            return ('close',)
+        if beh == 'stall':
+            return ('stall',)
+        if beh == 'garbage':
+            return ('garbage', b'xyz\r\n')
+        # endless-challenges: never more than a few before giving up
+        if i < 6:
+            return ('reply', '334', ['VXNlcm5hbWU6'])
+        return ('reply', '535', ['5.7.8 enough'])
+    if beh == 'code':
+        fcode = ['4', '5'][api.choice('code_class', 2)] + \
+            api.sstr('code12', 2, 0x30, 0x39)
+    ext = ((ext_auth, 'PIPELINING', '8BITMIME') if pipe
+           else (ext_auth, '8BITMIME'))
+    base = nc.ok_script(ext)
+
+    def script(stage, i):
+        if stage == 'AUTH':
+            return auth_action(i)
+        return base(stage, i)
+    peers = []
+
+    def creator(address):
+        p = nc.ScriptedPeer(script)
+        peers.append(p)
+        return p.start()
+    relay = StaticSmtpRelay('mx.example', 25, socket_creator=creator,
+                            ehlo_as='me', connect_timeout=10,
+                            command_timeout=10, data_timeout=20,
+                            context=object(),
+                            credentials=('user', 'secret'))
+    env = qc.make_envelope('m1', 's@z', RC[:1])
+    out = []
+    gevent.spawn(attempt, relay, env, out)
+    qc.run_until_quiescent()
+    info = dict(pipe=pipe, auth_ext=ext_auth, auth_reply=beh)
+    if not api.prove(len(out) == 1, 'attempt-never-finished', **info):
+        return
+    kind, val = out[0]
+    api.observe('kind', kind)
+    if not api.prove(kind != 'other-exception', 'non-relay-exception',
+                     exc=type(val).__name__, **info):
+        return
+    peer = peers[0] if peers else None
+    auth_ok = peer is not None and any(
+        st == 'AUTH' and a[0] == 'reply' and a[1] == '235'
+        for st, a, arg in peer.log)
+    auth_tried = peer is not None and any(st == 'AUTH'
+                                          for st, a, arg in peer.log)
+    if kind == 'value':
+        acc = accepted_by_peer(peer, RC[:1], 0)
+        api.prove(acc.get(RC[0], False),
+                  'delivered-although-peer-did-not-accept', **info)
+        # credentials were configured: mail must not go out on a session the
+        # server refused to authenticate
+        if auth_tried:
+            api.prove(auth_ok, 'delivered-after-failed-authentication',
+                      **info)
+    else:
+        check_class(val, info)
+        if beh in ('close', 'stall', 'garbage') and auth_tried:
+            api.prove(isinstance(val, TransientRelayError),
+                      'disconnect-timeout-garbage-not-transient',
+                      got=type(val).__name__, **info)
+        if beh == 'code' and auth_tried:
+            api.prove(isinstance(val, PermanentRelayError) ==
+                      api.decide(fcode[0:1] == '5'),
+                      'error-class-does-not-follow-reply-code', **info)
 
 
 def accepted_by_peer(peer, rcpts, lmtp, nth=0):
